@@ -4,7 +4,72 @@ From FV Require Import Generated.Consts Lib.Wrap Lib.LE Lib.Varint Lib.Dec C07.M
 Import ListNotations.
 Open Scope Z_scope.
 
-(* integers on the wire: the variable-length form decodes to exactly the value set *)
+(* ---- ranges of the Go types --------------------------------------------------------------- *)
+Definition int_range (k : ikind) (z : Z) : Prop :=
+  match k with
+  | IInt | II64 => in_s 64 z
+  | IUint | IU64 => in_u 64 z
+  | II8 => in_s 8 z
+  | II16 => in_s 16 z
+  | II32 => in_s 32 z
+  | IU8 => in_u 8 z
+  | IU16 => in_u 16 z
+  | IU32 => in_u 32 z
+  end.
+
+(* kinds whose every value is an int64 value (all but uint / uint64) *)
+Definition fits_int64 (k : ikind) : Prop := match k with IUint | IU64 => False | _ => True end.
+
+Lemma int_range_fits k z : int_range k z -> fits_int64 k -> in_s 64 z.
+Proof.
+  unfold in_s. change (2 ^ (64 - 1)) with 9223372036854775808.
+  destruct k; cbn [int_range fits_int64]; unfold in_s, in_u; intros H F; try contradiction;
+    cbn in H; cbn; lia.
+Qed.
+
+Lemma int_range_wide k z : int_range k z -> - 2 ^ 63 <= z < 2 ^ 64.
+Proof. destruct k; cbn [int_range]; unfold in_s, in_u; cbn; lia. Qed.
+
+(* ---- read-back ---------------------------------------------------------------------------- *)
+Lemma readback_int o k z : int_range k z ->
+  body_to_int o (set_body o (GInt k z)) = Some (wraps 64 z) /\
+  in_s 64 (wraps 64 z) /\ wrapu 64 (wraps 64 z) = wrapu 64 z /\
+  (fits_int64 k -> wraps 64 z = z).
+Proof.
+  intros H. cbn [set_body body_to_int]. split; [reflexivity|]. split; [apply wraps_range; lia|].
+  split; [apply wrapu_wraps; lia|]. intros F. apply wraps_small; [lia|]. eapply int_range_fits; eassumption.
+Qed.
+
+Lemma readback_bool o b : body_to_int o (set_body o (GBool b)) = Some (if b then 1 else 0).
+Proof. reflexivity. Qed.
+Lemma readback_f64 o f : body_to_float o (set_body o (GF64 f)) = Some f.
+Proof. reflexivity. Qed.
+Lemma readback_f32 o f : body_to_float o (set_body o (GF32 f)) = Some (widen o f).
+Proof. reflexivity. Qed.
+Lemma readback_str o s : body_to_string o (set_body o (GStr s)) = s.
+Proof. reflexivity. Qed.
+Lemma readback_bytes o b : body_to_bytes (set_body o (GBytes b)) = b.
+Proof. reflexivity. Qed.
+Lemma readback_nil o : set_body o GNil = BNil.
+Proof. reflexivity. Qed.
+
+(* ---- text form ------------------------------------------------------------------------------ *)
+Lemma text_int o z : in_s 64 z ->
+  body_to_string o (BInt z) = format_int z /\ parse_int (body_to_string o (BInt z)) = Some z /\
+  body_to_string o (BInt z) <> [].
+Proof.
+  unfold in_s. change (64 - 1) with 63. intros H. cbn [body_to_string].
+  split; [reflexivity|]. split; [apply parse_format_int; assumption | apply format_int_nonempty; assumption].
+Qed.
+
+Lemma text_set_int o k z : int_range k z ->
+  parse_int (body_to_string o (set_body o (GInt k z))) = Some (wraps 64 z).
+Proof. intros H. cbn [set_body]. apply text_int. apply wraps_range. lia. Qed.
+
+Lemma text_set_bool o b : parse_int (body_to_string o (set_body o (GBool b))) = Some (if b then 1 else 0).
+Proof. destruct b; reflexivity. Qed.
+
+(* ---- wire form ------------------------------------------------------------------------------ *)
 Lemma int_wire_roundtrip z rest : in_s 64 z ->
   varint (body_to_bytes (BInt z) ++ rest) = (z, Z.of_nat (length (body_to_bytes (BInt z)))).
 Proof. intros H. cbn [body_to_bytes]. apply varint_put_varint; assumption. Qed.
@@ -12,3 +77,356 @@ Proof. intros H. cbn [body_to_bytes]. apply varint_put_varint; assumption. Qed.
 Lemma float_wire_roundtrip f rest : 0 <= f < 2 ^ 64 ->
   uvarint (body_to_bytes (BFloat f) ++ rest) = (f, Z.of_nat (length (body_to_bytes (BFloat f)))).
 Proof. intros H. cbn [body_to_bytes]. apply uvarint_put_uvarint; assumption. Qed.
+
+Lemma wire_set_int o k z rest : int_range k z ->
+  varint (body_to_bytes (set_body o (GInt k z)) ++ rest) =
+  (wraps 64 z, Z.of_nat (length (body_to_bytes (set_body o (GInt k z))))).
+Proof. intros H. cbn [set_body]. apply int_wire_roundtrip. apply wraps_range. lia. Qed.
+
+Lemma wire_set_bool o b rest :
+  varint (body_to_bytes (set_body o (GBool b)) ++ rest) =
+  ((if b then 1 else 0), Z.of_nat (length (body_to_bytes (set_body o (GBool b))))).
+Proof. cbn [set_body]. apply int_wire_roundtrip. destruct b; unfold in_s; cbn; lia. Qed.
+
+Lemma wire_nonempty_num b : (exists z, b = BInt z) \/ (exists f, b = BFloat f) -> body_to_bytes b <> [].
+Proof.
+  intros [[z ->]|[f ->]]; cbn [body_to_bytes]; intros E.
+  - pose proof (put_varint_length z) as L. rewrite E in L. cbn in L. lia.
+  - pose proof (put_uvarint_length f) as L. rewrite E in L. cbn in L. lia.
+Qed.
+
+(* ---- flags: 8-bit, so the bit algebra is settled by a complete sweep --------------------------- *)
+Lemma sweep256 (P : Z -> bool) :
+  forallb P (map Z.of_nat (List.seq 0 256)) = true -> forall f, 0 <= f < 256 -> P f = true.
+Proof.
+  intros H f Hf. rewrite forallb_forall in H. apply H. apply in_map_iff.
+  exists (Z.to_nat f). split; [lia|]. apply List.in_seq. lia.
+Qed.
+
+(* the compression / encryption marks are not set by the sender *)
+Definition clean (f : Z) : Prop :=
+  0 <= f < 256 /\ has_flag f root_PFlagCompressed = false /\ has_flag f root_PFlagEncrypted = false.
+
+Definition cleanb (f : Z) : bool := negb (has_flag f 1) && negb (has_flag f 2).
+
+Lemma clean_cleanb f : clean f -> 0 <= f < 256 /\ cleanb f = true.
+Proof.
+  unfold clean, cleanb, root_PFlagCompressed, root_PFlagEncrypted. intros (H & H1 & H2).
+  split; [assumption|]. now rewrite H1, H2.
+Qed.
+
+Lemma clean_sweep (law : Z -> bool) :
+  forallb (fun g => negb (cleanb g) || law g) (map Z.of_nat (List.seq 0 256)) = true ->
+  forall g, clean g -> law g = true.
+Proof.
+  intros H g Hc. destruct (clean_cleanb g Hc) as [Hr Hb].
+  pose proof (sweep256 _ H g Hr) as S. cbv beta in S. rewrite Hb in S. exact S.
+Qed.
+
+Ltac by_sweep law := apply (clean_sweep law); [vm_compute; reflexivity | assumption].
+
+Lemma ff_c_not_e g : clean g -> has_flag (Z.lor g 1) 2 = false.
+Proof. intros H. apply negb_true_iff. by_sweep (fun g => negb (has_flag (Z.lor g 1) 2)). Qed.
+Lemma ff_e g : clean g -> has_flag (Z.lor g 2) 2 = true.
+Proof. intros H. by_sweep (fun g => has_flag (Z.lor g 2) 2). Qed.
+Lemma ff_ce_e g : clean g -> has_flag (Z.lor (Z.lor g 1) 2) 2 = true.
+Proof. intros H. by_sweep (fun g => has_flag (Z.lor (Z.lor g 1) 2) 2). Qed.
+Lemma ff_e_clear g : clean g -> Z.land (Z.lor g 2) 253 = g.
+Proof. intros H. apply Z.eqb_eq. by_sweep (fun g => Z.land (Z.lor g 2) 253 =? g). Qed.
+Lemma ff_ce_clear g : clean g -> Z.land (Z.lor (Z.lor g 1) 2) 253 = Z.lor g 1.
+Proof. intros H. apply Z.eqb_eq. by_sweep (fun g => Z.land (Z.lor (Z.lor g 1) 2) 253 =? Z.lor g 1). Qed.
+Lemma ff_c g : clean g -> has_flag (Z.lor g 1) 1 = true.
+Proof. intros H. by_sweep (fun g => has_flag (Z.lor g 1) 1). Qed.
+Lemma ff_c_clear g : clean g -> Z.land (Z.lor g 1) 254 = g.
+Proof. intros H. apply Z.eqb_eq. by_sweep (fun g => Z.land (Z.lor g 1) 254 =? g). Qed.
+Lemma ff_err g : clean g -> has_flag (Z.lor g 16) 16 = true.
+Proof. intros H. by_sweep (fun g => has_flag (Z.lor g 16) 16). Qed.
+Lemma ff_err_idem g : clean g -> Z.lor (Z.lor g 16) 16 = Z.lor g 16.
+Proof. intros H. apply Z.eqb_eq. by_sweep (fun g => Z.lor (Z.lor g 16) 16 =? Z.lor g 16). Qed.
+Lemma fa_err g : 0 <= g < 256 -> has_flag (Z.lor g 16) 16 = true.
+Proof. intros H. apply (sweep256 (fun g => has_flag (Z.lor g 16) 16)); [vm_compute; reflexivity|assumption]. Qed.
+Lemma fa_err_idem g : 0 <= g < 256 -> Z.lor (Z.lor g 16) 16 = Z.lor g 16.
+Proof. intros H. apply Z.eqb_eq. apply (sweep256 (fun g => Z.lor (Z.lor g 16) 16 =? Z.lor g 16)); [vm_compute; reflexivity|assumption]. Qed.
+Lemma ff_err_clean g : clean g -> clean (Z.lor g 16).
+Proof.
+  intros H. unfold clean, root_PFlagCompressed, root_PFlagEncrypted. repeat split.
+  - apply Z.leb_le. by_sweep (fun g => 0 <=? Z.lor g 16).
+  - apply Z.ltb_lt. by_sweep (fun g => Z.lor g 16 <? 256).
+  - apply negb_true_iff. by_sweep (fun g => negb (has_flag (Z.lor g 16) 1)).
+  - apply negb_true_iff. by_sweep (fun g => negb (has_flag (Z.lor g 16) 2)).
+Qed.
+
+(* ---- across the wire ------------------------------------------------------------------------- *)
+(* what is assumed of zlib and of the cipher: they invert, zlib output is never empty (it has a
+   header) and the cipher does not turn a non-empty payload into an empty one (CFB keeps lengths) *)
+Record coders_ok (c : coders) : Prop := mkCok {
+  unzip : forall b, decompress c (compress c b) = Some b;
+  zip_nonempty : forall b, compress c b <> [];
+  uncipher : forall b, decrypt c (encrypt c b) = b;
+  cipher_nonempty : forall b, b <> [] -> encrypt c b <> [] }.
+
+(* the body a receiver rebuilds from the (non-empty) wire form w under flag g *)
+Definition rebuilt (g : Z) (w : list Z) : body :=
+  if has_flag g root_PFlagError then BInt (fst (varint w)) else BBytes w.
+
+Lemma length_zero_iff {A} (l : list A) : Nat.eqb (length l) 0 = true <-> l = [].
+Proof. destruct l; cbn; split; congruence. Qed.
+
+Lemma nonempty_eqb {A} (l : list A) : l <> [] -> negb (Nat.eqb (length l) 0) = true.
+Proof. destruct l; [congruence|reflexivity]. Qed.
+
+(* marshalPacketBody followed by unmarshalPacketBody on the receiving side: the marks the codec
+   set are cleared again, the payload is the sender's wire form, the body is rebuilt from it *)
+Lemma unmarshal_marshal c thr enc p q0 f payload :
+  coders_ok c -> clean (flg p) -> body_to_bytes (pbody p) <> [] ->
+  marshal_body c thr enc p = (f, payload) -> flg q0 = f ->
+  payload <> [] /\
+  unmarshal_body c enc payload q0 =
+    Some (with_body (with_flag q0 (flg p)) (rebuilt (flg p) (body_to_bytes (pbody p)))).
+Proof.
+  intros Hc Hcl Hw Hm Hq. destruct Hc as [Hunzip Hzne Hunc Hcne].
+  set (g := flg p) in *. set (w := body_to_bytes (pbody p)) in *.
+  unfold marshal_body in Hm. fold w in Hm. fold g in Hm.
+  unfold root_PFlagCompressed, root_PFlagEncrypted in Hm.
+  unfold unmarshal_body, rebuilt, root_PFlagCompressed, root_PFlagEncrypted, root_PFlagError. rewrite Hq.
+  change (255 - 2) with 253. change (255 - 1) with 254.
+  destruct Hcl as (Hr & Hc1 & Hc2). unfold root_PFlagCompressed in Hc1. unfold root_PFlagEncrypted in Hc2.
+  assert (Hcl : clean g) by (unfold clean, root_PFlagCompressed, root_PFlagEncrypted; auto).
+  destruct ((0 <? thr) && (thr <? Z.of_nat (length w))) eqn:EC.
+  - (* compressed *)
+    rewrite (nonempty_eqb _ (Hzne w)) in Hm. destruct enc; cbn [andb] in Hm; inversion Hm; subst f payload; clear Hm.
+    + split; [apply Hcne, Hzne|].
+      rewrite (ff_ce_e g Hcl), Hunc, (ff_ce_clear g Hcl), (ff_c g Hcl), Hunzip. cbn [option_map].
+      rewrite (ff_c_clear g Hcl). destruct (has_flag g 16); reflexivity.
+    + split; [apply Hzne|].
+      rewrite (ff_c_not_e g Hcl), (ff_c g Hcl), Hunzip. cbn [option_map].
+      rewrite (ff_c_clear g Hcl). destruct (has_flag g 16); reflexivity.
+  - (* not compressed *)
+    rewrite (nonempty_eqb _ Hw) in Hm. destruct enc; cbn [andb] in Hm; inversion Hm; subst f payload; clear Hm.
+    + split; [apply Hcne, Hw|].
+      rewrite (ff_e g Hcl), Hunc, (ff_e_clear g Hcl), Hc1. destruct (has_flag g 16); reflexivity.
+    + split; [exact Hw|]. rewrite Hc2, Hc1. destruct (has_flag g 16); reflexivity.
+Qed.
+
+(* an empty wire form travels as an empty payload: nothing is compressed or encrypted *)
+Lemma marshal_empty c thr enc p : body_to_bytes (pbody p) = [] -> marshal_body c thr enc p = (flg p, []).
+Proof.
+  intros Hw. unfold marshal_body. rewrite Hw. cbn [length Z.of_nat].
+  replace (thr <? 0) with (negb (0 <=? thr)) by (rewrite Z.leb_antisym, negb_involutive; reflexivity).
+  destruct (0 <? thr) eqn:E.
+  - apply Z.ltb_lt in E. replace (0 <=? thr) with true by (symmetry; apply Z.leb_le; lia). reflexivity.
+  - reflexivity.
+Qed.
+
+(* the packet a V1 receiver ends up with *)
+Definition v1_result (p : packet) : packet :=
+  match body_to_bytes (pbody p) with
+  | [] => mkPkt (cmd p) (seq p) 0 (flg p) 0 BNil [] None
+  | w => mkPkt (cmd p) (seq p) 0 (flg p) 0 (rebuilt (flg p) w) [] None
+  end.
+Definition v2_result (p : packet) : packet :=
+  match body_to_bytes (pbody p) with
+  | [] => mkPkt (cmd p) (seq p) (typ p) (flg p) (node p) BNil (refers p) None
+  | w => mkPkt (cmd p) (seq p) (typ p) (flg p) (node p) (rebuilt (flg p) w) (refers p) None
+  end.
+
+Lemma wire_v1_result c thr enc p q : coders_ok c -> clean (flg p) ->
+  wire_v1 c thr enc enc p = Some q -> q = v1_result p.
+Proof.
+  intros Hc Hcl H. unfold wire_v1 in H. unfold v1_result.
+  destruct (body_to_bytes (pbody p)) as [|x w] eqn:Ew.
+  - rewrite (marshal_empty c thr enc p Ew) in H.
+    destruct (codec_V1MaxPayloadBytes <? _); [discriminate|]. cbn [decode_payload] in H. congruence.
+  - destruct (marshal_body c thr enc p) as [f payload] eqn:Em.
+    destruct (codec_V1MaxPayloadBytes <? _); [discriminate|].
+    destruct (unmarshal_marshal c thr enc p (mkPkt (cmd p) (seq p) 0 f 0 BNil [] None) f payload Hc Hcl
+                ltac:(rewrite Ew; discriminate) Em eq_refl) as [Hne Hu].
+    unfold decode_payload in H. destruct payload as [|y payload]; [congruence|].
+    rewrite Hu in H. rewrite Ew in H. inversion H. reflexivity.
+Qed.
+
+Lemma wire_v2_result c thr enc p q : coders_ok c -> clean (flg p) ->
+  wire_v2 c thr enc enc p = Some q -> q = v2_result p.
+Proof.
+  intros Hc Hcl H. unfold wire_v2 in H. unfold v2_result.
+  destruct (255 <? Z.of_nat (length (refers p))); [discriminate|].
+  destruct (body_to_bytes (pbody p)) as [|x w] eqn:Ew.
+  - rewrite (marshal_empty c thr enc p Ew) in H.
+    destruct (codec_V2MaxPayloadBytes <? _); [discriminate|]. cbn [decode_payload] in H. congruence.
+  - destruct (marshal_body c thr enc p) as [f payload] eqn:Em.
+    destruct (codec_V2MaxPayloadBytes <? _); [discriminate|].
+    destruct (unmarshal_marshal c thr enc p (mkPkt (cmd p) (seq p) (typ p) f (node p) BNil (refers p) None) f payload Hc Hcl
+                ltac:(rewrite Ew; discriminate) Em eq_refl) as [Hne Hu].
+    unfold decode_payload in H. destruct payload as [|y payload]; [congruence|].
+    rewrite Hu in H. rewrite Ew in H. inversion H. reflexivity.
+Qed.
+
+(* ---- error codes ------------------------------------------------------------------------------ *)
+Lemma errno_unflagged p : has_flag (flg p) root_PFlagError = false -> errno p = 0.
+Proof. intros H. unfold errno. now rewrite H. Qed.
+
+Lemma in_s32_64 e : in_s 32 e -> in_s 64 e.
+Proof. unfold in_s. cbn. lia. Qed.
+
+Lemma errno_set e p : 0 <= flg p < 256 -> in_s 32 e -> errno (set_errno e p) = e.
+Proof.
+  intros Hcl He. unfold errno, set_errno. cbn [with_body with_flag flg pbody].
+  unfold root_PFlagError. rewrite (fa_err _ Hcl).
+  rewrite (wraps_small 64 e) by (try lia; apply in_s32_64; assumption).
+  apply wraps_small; [lia|assumption].
+Qed.
+
+(* the receiver's view of a packet carrying an error code *)
+Lemma errno_rebuilt e p :
+  clean (flg p) -> in_s 32 e ->
+  let p' := set_errno e p in
+  body_to_bytes (pbody p') <> [] /\ rebuilt (flg p') (body_to_bytes (pbody p')) = BInt e /\
+  has_flag (flg p') root_PFlagError = true.
+Proof.
+  intros Hcl He. cbv zeta. unfold set_errno. cbn [with_body with_flag flg pbody].
+  rewrite (wraps_small 64 e) by (try lia; apply in_s32_64; assumption).
+  split; [apply wire_nonempty_num; left; eexists; reflexivity|].
+  unfold rebuilt, root_PFlagError. rewrite (ff_err _ Hcl). split; [|reflexivity].
+  cbn [body_to_bytes]. rewrite <- (app_nil_r (put_varint e)).
+  rewrite varint_put_varint by (apply in_s32_64; assumption). reflexivity.
+Qed.
+
+Lemma errno_wire_v1 c thr enc e p q : coders_ok c -> clean (flg p) -> in_s 32 e ->
+  wire_v1 c thr enc enc (set_errno e p) = Some q -> errno q = e.
+Proof.
+  intros Hc Hcl He H.
+  assert (Hcl' : clean (flg (set_errno e p))) by (cbn; apply ff_err_clean; assumption).
+  rewrite (wire_v1_result c thr enc _ q Hc Hcl' H).
+  destruct (errno_rebuilt e p Hcl He) as (Hne & Hb & Hf). cbv zeta in *.
+  unfold v1_result. destruct (body_to_bytes (pbody (set_errno e p))) as [|x w] eqn:Ew; [congruence|].
+  unfold errno. cbn [flg pbody]. rewrite Hf, Hb. apply wraps_small; [lia|assumption].
+Qed.
+
+Lemma errno_wire_v2 c thr enc e p q : coders_ok c -> clean (flg p) -> in_s 32 e ->
+  wire_v2 c thr enc enc (set_errno e p) = Some q -> errno q = e.
+Proof.
+  intros Hc Hcl He H.
+  assert (Hcl' : clean (flg (set_errno e p))) by (cbn; apply ff_err_clean; assumption).
+  rewrite (wire_v2_result c thr enc _ q Hc Hcl' H).
+  destruct (errno_rebuilt e p Hcl He) as (Hne & Hb & Hf). cbv zeta in *.
+  unfold v2_result. destruct (body_to_bytes (pbody (set_errno e p))) as [|x w] eqn:Ew; [congruence|].
+  unfold errno. cbn [flg pbody]. rewrite Hf, Hb. apply wraps_small; [lia|assumption].
+Qed.
+
+(* conversely the frame does cross whenever it fits the codec's size limit *)
+Lemma wire_v1_complete c thr enc p : coders_ok c -> clean (flg p) ->
+  codec_V1HeaderSize + Z.of_nat (length (snd (marshal_body c thr enc p))) <= codec_V1MaxPayloadBytes ->
+  wire_v1 c thr enc enc p = Some (v1_result p).
+Proof.
+  intros Hc Hcl Hsz. unfold wire_v1, v1_result.
+  destruct (body_to_bytes (pbody p)) as [|x w] eqn:Ew.
+  - rewrite (marshal_empty c thr enc p Ew) in *. cbn [snd length] in *.
+    replace (codec_V1MaxPayloadBytes <? _) with false by (symmetry; apply Z.ltb_ge; exact Hsz). reflexivity.
+  - destruct (marshal_body c thr enc p) as [f payload] eqn:Em. cbn [snd] in Hsz.
+    replace (codec_V1MaxPayloadBytes <? _) with false by (symmetry; apply Z.ltb_ge; exact Hsz).
+    destruct (unmarshal_marshal c thr enc p (mkPkt (cmd p) (seq p) 0 f 0 BNil [] None) f payload Hc Hcl
+                ltac:(rewrite Ew; discriminate) Em eq_refl) as [Hne Hu].
+    unfold decode_payload. destruct payload as [|y payload]; [congruence|]. rewrite Hu, Ew. reflexivity.
+Qed.
+
+Lemma wire_v2_complete c thr enc p : coders_ok c -> clean (flg p) ->
+  Z.of_nat (length (refers p)) <= 255 ->
+  codec_V2HeaderSize + 4 * Z.of_nat (length (refers p)) + Z.of_nat (length (snd (marshal_body c thr enc p)))
+    <= codec_V2MaxPayloadBytes ->
+  wire_v2 c thr enc enc p = Some (v2_result p).
+Proof.
+  intros Hc Hcl Hrf Hsz. unfold wire_v2, v2_result.
+  replace (255 <? Z.of_nat (length (refers p))) with false by (symmetry; apply Z.ltb_ge; exact Hrf).
+  destruct (body_to_bytes (pbody p)) as [|x w] eqn:Ew.
+  - rewrite (marshal_empty c thr enc p Ew) in *. cbn [snd length] in *.
+    replace (codec_V2MaxPayloadBytes <? _) with false by (symmetry; apply Z.ltb_ge; exact Hsz). reflexivity.
+  - destruct (marshal_body c thr enc p) as [f payload] eqn:Em. cbn [snd] in Hsz.
+    replace (codec_V2MaxPayloadBytes <? _) with false by (symmetry; apply Z.ltb_ge; exact Hsz).
+    destruct (unmarshal_marshal c thr enc p (mkPkt (cmd p) (seq p) (typ p) f (node p) BNil (refers p) None) f payload Hc Hcl
+                ltac:(rewrite Ew; discriminate) Em eq_refl) as [Hne Hu].
+    unfold decode_payload. destruct payload as [|y payload]; [congruence|]. rewrite Hu, Ew. reflexivity.
+Qed.
+
+(* an error code without compression (threshold >= the 10 bytes a varint can take) and with a
+   length-preserving cipher is at most 10 bytes of payload: it always crosses *)
+Lemma errno_payload_small c thr enc e p : 10 <= thr -> (forall b, length (encrypt c b) = length b) ->
+  (length (snd (marshal_body c thr enc (set_errno e p))) <= 10)%nat.
+Proof.
+  intros Hthr Hlen. unfold marshal_body, set_errno. cbn [with_body with_flag pbody flg body_to_bytes].
+  pose proof (put_varint_length (wraps 64 e)) as L.
+  replace (thr <? Z.of_nat (length (put_varint (wraps 64 e)))) with false by (symmetry; apply Z.ltb_ge; lia).
+  rewrite andb_false_r.
+  destruct (negb (Nat.eqb (length (put_varint (wraps 64 e))) 0) && enc); cbn [snd]; [rewrite Hlen|]; lia.
+Qed.
+
+(* ---- a decoded packet can be sent on again ---------------------------------------------------- *)
+(* without the error flag the receiver holds exactly the sender's wire form (text and bytes
+   verbatim, numbers as their varints, an absent body as an absent one) *)
+Lemma resend_v1 p : has_flag (flg p) root_PFlagError = false ->
+  body_to_bytes (pbody (v1_result p)) = body_to_bytes (pbody p).
+Proof.
+  intros H. unfold v1_result. destruct (body_to_bytes (pbody p)) as [|x w] eqn:Ew; cbn [pbody body_to_bytes]; [reflexivity|].
+  unfold rebuilt. rewrite H. reflexivity.
+Qed.
+Lemma resend_v2 p : has_flag (flg p) root_PFlagError = false ->
+  body_to_bytes (pbody (v2_result p)) = body_to_bytes (pbody p).
+Proof.
+  intros H. unfold v2_result. destruct (body_to_bytes (pbody p)) as [|x w] eqn:Ew; cbn [pbody body_to_bytes]; [reflexivity|].
+  unfold rebuilt. rewrite H. reflexivity.
+Qed.
+
+(* the decoded body is one of the kinds BodyToBytes accepts; in particular never a float/string *)
+Lemma decoded_kind_v1 p :
+  pbody (v1_result p) = BNil \/ (exists w, pbody (v1_result p) = BBytes w) \/ (exists z, pbody (v1_result p) = BInt z).
+Proof.
+  unfold v1_result. destruct (body_to_bytes (pbody p)); cbn [pbody]; [left; reflexivity|right].
+  unfold rebuilt. destruct (has_flag (flg p) root_PFlagError); [right|left]; eexists; reflexivity.
+Qed.
+Lemma decoded_kind_v2 p :
+  pbody (v2_result p) = BNil \/ (exists w, pbody (v2_result p) = BBytes w) \/ (exists z, pbody (v2_result p) = BInt z).
+Proof.
+  unfold v2_result. destruct (body_to_bytes (pbody p)); cbn [pbody]; [left; reflexivity|right].
+  unfold rebuilt. destruct (has_flag (flg p) root_PFlagError); [right|left]; eexists; reflexivity.
+Qed.
+
+(* header fields each codec carries *)
+Lemma header_v1 p : cmd (v1_result p) = cmd p /\ seq (v1_result p) = seq p /\ flg (v1_result p) = flg p.
+Proof. unfold v1_result. destruct (body_to_bytes (pbody p)); cbn; auto. Qed.
+Lemma header_v2 p :
+  cmd (v2_result p) = cmd p /\ seq (v2_result p) = seq p /\ flg (v2_result p) = flg p /\
+  typ (v2_result p) = typ p /\ node (v2_result p) = node p /\ refers (v2_result p) = refers p.
+Proof. unfold v2_result. destruct (body_to_bytes (pbody p)); cbn; auto 10. Qed.
+
+(* ---- replies and refusals -------------------------------------------------------------------- *)
+Lemma reply_fields p command b e q : reply_with p command b = Some (e, q) ->
+  endpoint p = Some e /\ cmd q = command /\ seq q = seq p /\ typ q = typ p /\ node q = node p /\
+  refers q = refers p /\ flg q = flg p /\ pbody q = b.
+Proof.
+  unfold reply_with. destruct (endpoint p) as [e'|]; [|discriminate]. intros H. inversion H; subst. cbn. auto 10.
+Qed.
+
+Lemma reply_sent p command b e : endpoint p = Some e -> exists q, reply_with p command b = Some (e, q).
+Proof. intros H. unfold reply_with. rewrite H. eexists. reflexivity. Qed.
+
+Lemma refuse_with_fields p command ec e q : 0 <= flg p < 256 -> in_s 32 ec ->
+  refuse_with p command ec = Some (e, q) ->
+  endpoint p = Some e /\ cmd q = command /\ seq q = seq p /\ typ q = typ p /\ node q = node p /\
+  refers q = refers p /\ has_flag (flg q) root_PFlagError = true /\ errno q = ec /\
+  pbody q = BInt ec.
+Proof.
+  intros Hcl Hec. unfold refuse_with. destruct (endpoint p) as [e'|]; [|discriminate]. intros H. inversion H; subst.
+  unfold set_errno, errno. cbn [with_body with_flag cmd seq typ node refers flg pbody].
+  unfold root_PFlagError. rewrite (fa_err_idem _ Hcl), (fa_err _ Hcl).
+  rewrite (wraps_small 64 ec) by (try lia; apply in_s32_64; assumption).
+  rewrite (wraps_small 32 ec) by (try lia; assumption). auto 10.
+Qed.
+
+Lemma refuse_fields ack p ec e q : 0 <= flg p < 256 -> in_s 32 ec ->
+  refuse ack p ec = Some (e, q) ->
+  endpoint p = Some e /\ cmd q = (if ack (cmd p) =? 0 then cmd p else ack (cmd p)) /\
+  seq q = seq p /\ typ q = typ p /\ node q = node p /\
+  refers q = refers p /\ has_flag (flg q) root_PFlagError = true /\ errno q = ec.
+Proof.
+  intros Hcl Hec H. unfold refuse in H.
+  destruct (refuse_with_fields p _ ec e q Hcl Hec H) as (H1 & H2 & H3 & H4 & H5 & H6 & H7 & H8 & _). auto 10.
+Qed.
